@@ -168,6 +168,10 @@ func (k *Checker) trackState(n *Node, pre, post *raft.VerifState, ctx *callCtx) 
 	if c.viol != nil {
 		return
 	}
+	k.checkMatchSound(n, post)
+	if c.viol != nil {
+		return
+	}
 	k.trackLeadership(n, pre, post, ctx)
 }
 
@@ -360,6 +364,59 @@ func (k *Checker) checkSelfAck(n *Node, post *raft.VerifState) {
 			return
 		}
 		k.report("C05", "dur.self_ack", n, fmt.Sprintf("leader of term %d counts its own entry %d as acknowledged but its durable log ends at %d", post.Term, pr.Match, d.last()), "")
+	}
+}
+
+// checkMatchSound is C06 cm.match_sound: the leader's Match for a follower is
+// knowledge of that follower's durable matching prefix. Whenever it changes,
+// the follower's durable log must hold the leader's entry at that index,
+// unless a leader of a higher term has meanwhile been at work on the follower
+// (its durable term is then above this leader's).
+func (k *Checker) checkMatchSound(n *Node, post *raft.VerifState) {
+	x := k.nc[n.id]
+	if !isLeader(post) {
+		if len(x.lastMatch) > 0 {
+			x.lastMatch = map[uint64]uint64{}
+		}
+		return
+	}
+	if x.lastMatch == nil || x.lastMatchTerm != post.Term {
+		x.lastMatch, x.lastMatchTerm = map[uint64]uint64{}, post.Term
+	}
+	for _, id := range post.ProgressIDs {
+		if id == n.id {
+			continue
+		}
+		m := post.Progress[id].Match
+		if m == x.lastMatch[id] {
+			continue
+		}
+		x.lastMatch[id] = m
+		if m == 0 {
+			continue
+		}
+		f := k.c.nodes[id]
+		if f == nil {
+			continue
+		}
+		k.count("cm.match_sound")
+		d := f.disk.dur
+		if d.hs.GetTerm() > post.Term {
+			continue
+		}
+		lt, ok := x.termAt(m)
+		if !ok {
+			continue // compacted on the leader
+		}
+		if ft, ok := d.term(m); ok {
+			if ft == lt {
+				continue
+			}
+		} else if m <= d.snapIndex() {
+			continue
+		}
+		k.report("C06", "cm.match_sound", n, fmt.Sprintf("leader of term %d records match index %d for %d, whose durable log [%d,%d] (snapshot %d, term %d) does not hold that entry", post.Term, m, id, d.first(), d.last(), d.snapIndex(), d.hs.GetTerm()), "")
+		return
 	}
 }
 
